@@ -163,7 +163,9 @@ def run_exact(case, res):
     last_dur = {}
     argbad = []
 
-    def rtf(u, tag):
+    def rtf(u, *tags):
+        if tags != ('b', 'bb'):
+            argbad.append(('rec_time_fxn extra arguments', tags, None, None))
         i = idx[u]
         k = occ.get(i, 0)
         occ[i] = k + 1
@@ -171,7 +173,9 @@ def run_exact(case, res):
         last_dur[i] = d
         return d
 
-    def ttf(u, v, rec_delay, tag):
+    def ttf(u, v, rec_delay, *tags):
+        if tags != ('a',):
+            argbad.append(('trans_time_fxn extra arguments', tags, None, None))
         i, j = idx[u], idx[v]
         bump(res, 'user_fn_args_checked')
         if rec_delay != last_dur.get(i):
@@ -190,14 +194,16 @@ def run_exact(case, res):
             bump(res, 'stored_delay_lists_handed_out_again')
         return store[(i, j)]
 
-    def joint(u, nb, tag):
-        d = rtf(u, tag)
+    def joint(u, nb, *tags):
+        if tags != ('c', 'cc', 'ccc'):
+            argbad.append(('trans_and_rec_time_fxn extra arguments', tags, None, None))
+        d = rtf(u, 'b', 'bb')
         i = idx[u]
         return {v: delays_for(i, idx[v], occ[i] - 1, d) for v in nb}, d
     if case['form'] == 'sep':
-        kw = dict(trans_time_fxn=ttf, rec_time_fxn=rtf, trans_time_args=('a',), rec_time_args=('b',))
+        kw = dict(trans_time_fxn=ttf, rec_time_fxn=rtf, trans_time_args=('a',), rec_time_args=('b', 'bb'))
     else:
-        kw = dict(trans_and_rec_time_fxn=joint, trans_and_rec_time_args=('c',))
+        kw = dict(trans_and_rec_time_fxn=joint, trans_and_rec_time_args=('c', 'cc', 'ccc'))
         bump(res, 'user_fn_args_checked')
     mode = 'full' if case['full'] else 'arrays'
     try:
@@ -206,7 +212,7 @@ def run_exact(case, res):
         viol(res, 'fast_nonMarkov_SIS|%s|exception:%s' % (mode, simcase.exc_key(e)), {'err': repr(e)})
         return
     if argbad:
-        viol(res, 'fast_nonMarkov_SIS|delay_function_receives_the_infection_duration', {'node,nbr,passed,drawn': argbad[0]})
+        viol(res, 'fast_nonMarkov_SIS|' + ('delay_function_receives_the_infection_duration' if not isinstance(argbad[0][0], str) else 'rule_receives_its_own_extra_arguments'), {'node,nbr,passed,drawn': [repr(x) for x in argbad[0]]})
         return
     bump(res, 'histories_compared')
     if case['graph'].get('selfloops'):
